@@ -37,7 +37,7 @@ m = {
               "kind_free_text": "runtime monitoring harness: generated workloads against the real code in worker subprocesses, differential / finite-difference / adjoint / reference-model oracles, ctypes boundary monitor, ASan+UBSan and TSan (with OpenMP annotation shim) builds"}],
  "checks": checks,
  "not_applicable": na,
- "notes": "See DESIGN.md. Exit codes: 0 held on everything explored, 1 violation (VIOLATION line), 2 inconclusive.",
+ "notes": "See DESIGN.md. Exit codes: 0 held on everything explored, 1 violation (VIOLATION line), 2 inconclusive. Known findings and repaired defects: known_findings.json (matched by mechanism; status known -> KNOWN-FINDING line and exit 0, status fixed -> suppresses nothing). Seeded property-breaking changes used to validate the checks: seeded/<id>/ (replay with tools/try_seed.py). Checks run against $VERIF_REPO (default /repo) and rebuild its C libraries on every run when the sources changed.",
 }
 json.dump(m, open(os.path.join(ROOT, "MANIFEST.json"), "w"), indent=1)
 print("manifest: %d checks, %d not_applicable" % (len(checks), len(na)))
